@@ -107,6 +107,14 @@ int64_t ExpressionDispatcher::dispatch_expression(const ASTNode *node) {
 
         // その他の演算子は従来通り
         int64_t left = dispatch_expression(node->left.get());
+        // short-circuit: the right operand of && / || is evaluated only when
+        // the left operand does not already decide the result
+        if (node->op == "&&" && !left) {
+            return 0;
+        }
+        if (node->op == "||" && left) {
+            return 1;
+        }
         int64_t right = dispatch_expression(node->right.get());
 
         int64_t result = 0;
